@@ -1,6 +1,7 @@
 package main
 
 import (
+	"go/types"
 	"fmt"
 	"go/constant"
 	"go/token"
@@ -42,62 +43,58 @@ func roundsToInterval(fn *ssa.Function) (n int, ok bool) {
 func r08_1(c *RC) {
 	p := c.P
 	sf := p.Fn("pkg/cipher", "saltFromTime")
-	ce := p.Fn("pkg/cipher", "cipherKeyEpoch")
-	if sf == nil || ce == nil {
-		c.Anchor("cipher.saltFromTime / cipherKeyEpoch")
+	if sf == nil {
+		c.Anchor("cipher.saltFromTime")
 		return
 	}
-	for _, fn := range []*ssa.Function{sf, ce} {
-		n, ok := roundsToInterval(fn)
-		key := "slot-rounding@" + fn.Name()
-		if n == 1 && ok {
-			c.OKH(key, fn.Pos(), "t.Round(KeyRefreshInterval = 120 s)")
-		} else {
-			c.Bad(key, fn.Pos(), "%s does not compute the key slot as t.Round(KeyRefreshInterval): the key slot (salt) and the cache slot (epoch) would change at different instants, so cached keys are used for a slot they were not derived for and stale keys are accepted", fn.Name())
-		}
+	if n, ok := roundsToInterval(sf); n == 1 && ok {
+		c.OKH("slot-rounding@saltFromTime", sf.Pos(), "t.Round(KeyRefreshInterval = 120 s)")
+	} else {
+		c.Bad("slot-rounding@saltFromTime", sf.Pos(), "saltFromTime does not compute the key slot as t.Round(KeyRefreshInterval)")
 	}
-	// cipherKeyEpoch returns Round(...).Unix() directly
-	good := false
-	instrs(ce, func(_ *ssa.BasicBlock, _ int, in ssa.Instruction) {
-		if r, ok := in.(*ssa.Return); ok && len(r.Results) == 1 {
-			if call, ok := retVal(r, 0).(*ssa.Call); ok && calleeID(call) == "(time.Time).Unix" {
-				if rc, ok := call.Common().Args[0].(*ssa.Call); ok && calleeID(rc) == "(time.Time).Round" {
-					good = true
+	// the cache epoch, wherever it is computed (a cipherKeyEpoch helper or
+	// in place): every epoch expression in pkg/cipher is Round(120 s).Unix(),
+	// and no other slotting of time (Truncate, division) exists next to it
+	nEpoch := 0
+	var otherSlotting []string
+	for _, fn := range p.Funcs("pkg/cipher") {
+		instrs(fn, func(_ *ssa.BasicBlock, _ int, in ssa.Instruction) {
+			call, ok := in.(*ssa.Call)
+			if !ok {
+				return
+			}
+			switch calleeID(call) {
+			case "(time.Time).Unix":
+				if _, ok := isEpochExpr(call); ok {
+					nEpoch++
+				}
+			case "(time.Time).Truncate":
+				if k, isK := constInt(call.Common().Args[1]); isK && k == 120e9 {
+					otherSlotting = append(otherSlotting, fnName(fn)+": Truncate(KeyRefreshInterval)")
+				}
+			case "(time.Time).Round":
+				if k, isK := constInt(call.Common().Args[1]); !isK || k != 120e9 {
+					otherSlotting = append(otherSlotting, fnName(fn)+": Round("+describe(call.Common().Args[1])+")")
 				}
 			}
-		}
-	})
-	if good {
-		c.OKH("epoch-value", ce.Pos(), "epoch = Round(t).Unix(), the very instant whose bytes are hashed into the salt")
-	} else {
-		c.Bad("epoch-value", ce.Pos(), "cipherKeyEpoch is not Round(t, KeyRefreshInterval).Unix()")
+		})
 	}
-	// offsets
-	var offs []string
-	instrs(sf, func(_ *ssa.BasicBlock, _ int, in ssa.Instruction) {
-		call, ok := in.(*ssa.Call)
-		if !ok || calleeID(call) != "(time.Time).Add" {
-			return
-		}
-		if k, ok := constInt(call.Common().Args[1]); ok {
-			offs = append(offs, fmt.Sprint(k/1e9))
-		} else {
-			offs = append(offs, "?")
-		}
-	})
-	// appended values: rounded.Add(-I), rounded, rounded.Add(+I)
-	nAppend := 0
-	instrs(sf, func(_ *ssa.BasicBlock, _ int, in ssa.Instruction) {
-		if call, ok := in.(*ssa.Call); ok && calleeNameAny(call) == "append" {
-			if strings.HasSuffix(call.Type().String(), "[]time.Time") {
-				nAppend++
-			}
-		}
-	})
-	if strings.Join(offs, ",") == "-120,120" && nAppend == 3 {
-		c.OKH("slot-offsets", sf.Pos(), "three salts: rounded-120s, rounded, rounded+120s")
+	switch {
+	case len(otherSlotting) > 0:
+		c.Bad("slot-rounding@cipherKeyEpoch", sf.Pos(), "pkg/cipher slots time in a second way (%s): the key slot (salt) and the cache slot (epoch) would change at different instants, so cached keys are used for a slot they were not derived for and stale keys are accepted", strings.Join(otherSlotting, "; "))
+		c.Bad("epoch-value", sf.Pos(), "the cache epoch is not Round(t, KeyRefreshInterval).Unix()")
+	case nEpoch == 0:
+		c.Bad("slot-rounding@cipherKeyEpoch", sf.Pos(), "no cache epoch of the form Round(t, KeyRefreshInterval).Unix() found in pkg/cipher")
+		c.Bad("epoch-value", sf.Pos(), "the cache epoch is not Round(t, KeyRefreshInterval).Unix()")
+	default:
+		c.OKH("slot-rounding@cipherKeyEpoch", sf.Pos(), "the cache epoch rounds with the same KeyRefreshInterval (120 s), %d site(s)", nEpoch)
+		c.OKH("epoch-value", sf.Pos(), "epoch = Round(t).Unix(), the very instant whose bytes are hashed into the salt")
+	}
+	// the instants salts are derived for, in order
+	if offs, ok := saltInstants(sf); ok && strings.Join(offs, ",") == "-120,0,120" {
+		c.OKH("slot-offsets", sf.Pos(), "three salts, in this order: rounded-120s, rounded, rounded+120s")
 	} else {
-		c.Bad("slot-offsets", sf.Pos(), "saltFromTime derives salts for offsets [%s] s with %d instants; the protocol requires previous, current and next 2-minute slot", strings.Join(offs, ","), nAppend)
+		c.Bad("slot-offsets", sf.Pos(), "saltFromTime derives salts for the instants [%s] s relative to the rounded time; the protocol (and the sender's use of index 1) requires previous, current, next 2-minute slot in this order", strings.Join(offs, ","))
 	}
 	// client uses cipherList[1]
 	if bf := p.Fn("pkg/cipher", "BlockCipherFromPassword"); bf == nil {
@@ -153,15 +150,19 @@ func r08_2(c *RC) {
 			continue
 		}
 		unit := false
-		instrs(fn, func(_ *ssa.BasicBlock, _ int, in ssa.Instruction) {
-			if bo, ok := in.(*ssa.BinOp); ok && bo.Op == token.QUO {
-				if k, ok := constInt(bo.Y); ok && k == 60 {
-					if cl, ok := bo.X.(*ssa.Call); ok && calleeID(cl) == "(time.Time).Unix" {
-						unit = true
+		// in the method itself or in a helper extracted from it
+		scope := withHelpers(p, fn, 2)
+		for _, f := range scope {
+			instrs(f, func(_ *ssa.BasicBlock, _ int, in ssa.Instruction) {
+				if bo, ok := in.(*ssa.BinOp); ok && bo.Op == token.QUO {
+					if k, ok := constInt(bo.Y); ok && k == 60 {
+						if cl, ok := bo.X.(*ssa.Call); ok && calleeID(cl) == "(time.Time).Unix" {
+							unit = true
+						}
 					}
 				}
-			}
-		})
+			})
+		}
 		if unit {
 			c.OK("timestamp-unit@"+fname, fn.Pos(), "minutes since the epoch: Unix()/60")
 		} else {
@@ -169,7 +170,9 @@ func r08_2(c *RC) {
 		}
 		if strings.HasSuffix(fname, "Unmarshal") {
 			found := false
-			instrs(fn, func(_ *ssa.BasicBlock, _ int, in ssa.Instruction) {
+			for _, hf := range scope {
+			hf := hf
+			instrs(hf, func(_ *ssa.BasicBlock, _ int, in ssa.Instruction) {
 				call, ok := in.(*ssa.Call)
 				if !ok || calleeName(call) != "WithinRange" {
 					return
@@ -179,9 +182,11 @@ func r08_2(c *RC) {
 				k, isK := constInt(call.Common().Args[2])
 				// args: (current, original, margin)
 				cur := false
-				for _, l := range Leaves(call.Common().Args[0], nil) {
-					if bo, ok := l.(*ssa.BinOp); ok && bo.Op == token.QUO {
-						cur = true
+				for _, l0 := range Leaves(call.Common().Args[0], nil) {
+					for _, l := range helperResultLeaves(p, l0) {
+						if bo, ok := l.(*ssa.BinOp); ok && bo.Op == token.QUO {
+							cur = true
+						}
 					}
 				}
 				if isK && k == 1 && cur {
@@ -201,9 +206,39 @@ func r08_2(c *RC) {
 					}
 					retErr := false
 					for _, x := range es.Instrs {
-						if r, ok := x.(*ssa.Return); ok && !retIsNil(r, 0) {
+						if r, ok := x.(*ssa.Return); ok && len(r.Results) > 0 && !retIsNil(r, len(r.Results)-1) {
 							retErr = true
 						}
+					}
+					// when the test sits in a helper, the method must in turn
+					// leave with an error as soon as the helper reports one
+					if retErr && hf != fn {
+						retErr = false
+						instrs(fn, func(_ *ssa.BasicBlock, _ int, y ssa.Instruction) {
+							hc, ok := y.(*ssa.Call)
+							if !ok || hc.Common().StaticCallee() == nil || !inHelperChain(hc.Common().StaticCallee(), hf, scope) {
+								return
+							}
+							var es2 *ssa.BasicBlock
+							if hc.Common().StaticCallee().Signature.Results().Len() == 1 {
+								es2 = errSuccessorSingle(hc)
+							} else {
+								es2 = errSuccessorOfTuple(hc, hc.Common().StaticCallee().Signature.Results().Len()-1)
+							}
+							if es2 == nil {
+								return
+							}
+							for _, z := range es2.Instrs {
+								if st, ok := z.(*ssa.Store); ok {
+									if _, isParam := storeBase(st).(*ssa.Parameter); isParam {
+										storeAfter = true
+									}
+								}
+								if r, ok := z.(*ssa.Return); ok && len(r.Results) > 0 && !retIsNil(r, len(r.Results)-1) {
+									retErr = true
+								}
+							}
+						})
 					}
 					if retErr && !storeAfter {
 						c.OK("stale-refused@"+fname, call.Pos(), "a timestamp outside the margin returns an error before anything is stored")
@@ -212,6 +247,7 @@ func r08_2(c *RC) {
 					}
 				}
 			})
+			}
 			if !found {
 				c.Bad("margin@"+fname, fn.Pos(), "%s no longer checks the timestamp with WithinRange", fname)
 			}
@@ -289,8 +325,8 @@ func r08_3(c *RC) {
 	// construction
 	for _, s := range p.FieldStores(epochF) {
 		key := "entry-epoch@" + fnName(s.Fn)
-		call, ok := s.Val.(*ssa.Call)
-		if ok && calleeName(call) == "cipherKeyEpoch" && s.Fn == gc && call.Common().Args[0] == ssa.Value(nowParam) {
+		inst, ok := isEpochExpr(s.Val)
+		if ok && s.Fn == gc && inst == ssa.Value(nowParam) {
 			c.OKH(key, s.Pos(), "epoch = cipherKeyEpoch(now)")
 		} else {
 			c.Bad(key, s.Pos(), "a cache entry's epoch is %s, not cipherKeyEpoch of the instant its keys were derived for", describe(s.Val))
@@ -328,12 +364,8 @@ func r08_3(c *RC) {
 			}
 			isEpochField := func(v ssa.Value) bool { return sameField(fieldOrigin(v), epochF) }
 			isEpochNow := func(v ssa.Value) bool {
-				for _, l := range Leaves(v, nil) {
-					if call, ok := l.(*ssa.Call); ok && calleeName(call) == "cipherKeyEpoch" {
-						return true
-					}
-				}
-				return false
+				_, ok := isEpochExpr(v)
+				return ok
 			}
 			if (isEpochField(bo.X) && isEpochNow(bo.Y)) || (isEpochField(bo.Y) && isEpochNow(bo.X)) {
 				found = true
@@ -380,4 +412,132 @@ func r08_3(c *RC) {
 	default:
 		c.OKH("stale-entry@getCachedCiphers", gc.Pos(), "with entry.epoch != cipherKeyEpoch(now) the cached entry is never returned (%d path states)", ex.States)
 	}
+}
+
+
+// inHelperChain: callee is target, or a member of scope that (transitively) calls target.
+func inHelperChain(callee, target *ssa.Function, scope []*ssa.Function) bool {
+	if callee == target {
+		return true
+	}
+	in := false
+	for _, f := range scope {
+		if f == callee {
+			in = true
+		}
+	}
+	if !in {
+		return false
+	}
+	found := false
+	instrs(callee, func(_ *ssa.BasicBlock, _ int, x ssa.Instruction) {
+		if cl, ok := x.(ssa.CallInstruction); ok && cl.Common().StaticCallee() == target {
+			found = true
+		}
+	})
+	return found
+}
+
+
+// isEpochExpr: v is the key-cache epoch of an instant - cipherKeyEpoch(t), or
+// the expression it stands for written in place: t.Round(120 s).Unix().
+// Returns the instant t.
+func isEpochExpr(v ssa.Value) (ssa.Value, bool) {
+	for _, l := range Leaves(v, nil) {
+		call, ok := l.(*ssa.Call)
+		if !ok {
+			continue
+		}
+		if calleeName(call) == "cipherKeyEpoch" && len(call.Common().Args) == 1 {
+			return call.Common().Args[0], true
+		}
+		if calleeID(call) == "(time.Time).Unix" {
+			if rc, ok := call.Common().Args[0].(*ssa.Call); ok && calleeID(rc) == "(time.Time).Round" {
+				if k, isK := constInt(rc.Common().Args[1]); isK && k == 120e9 {
+					return rc.Common().Args[0], true
+				}
+			}
+		}
+	}
+	return nil, false
+}
+
+// saltInstants lists, in order, the offsets (seconds relative to the rounded
+// instant) of the times saltFromTime derives salts for, whether the list is
+// built by appends or as a literal.
+func saltInstants(sf *ssa.Function) ([]string, bool) {
+	offsetOf := func(v ssa.Value) string {
+		for _, l := range Leaves(v, nil) {
+			call, ok := l.(*ssa.Call)
+			if !ok {
+				continue
+			}
+			switch calleeID(call) {
+			case "(time.Time).Round":
+				return "0"
+			case "(time.Time).Add":
+				if k, ok := constInt(call.Common().Args[1]); ok {
+					return fmt.Sprint(k / 1e9)
+				}
+				return "?"
+			}
+		}
+		return "?"
+	}
+	// literal: stores at constant indices of an array of time.Time
+	lit := map[int64]string{}
+	instrs(sf, func(_ *ssa.BasicBlock, _ int, in ssa.Instruction) {
+		st, ok := in.(*ssa.Store)
+		if !ok {
+			return
+		}
+		ia, ok := st.Addr.(*ssa.IndexAddr)
+		if !ok || !strings.HasSuffix(st.Val.Type().String(), "time.Time") {
+			return
+		}
+		al, ok := ia.X.(*ssa.Alloc)
+		if !ok {
+			return
+		}
+		if pt, ok := al.Type().Underlying().(*types.Pointer); ok {
+			if at, ok := pt.Elem().Underlying().(*types.Array); ok && at.Len() > 1 {
+				if k, ok := constInt(ia.Index); ok {
+					lit[k] = offsetOf(st.Val)
+				}
+			}
+		}
+	})
+	if len(lit) > 0 {
+		out := make([]string, len(lit))
+		for k, v := range lit {
+			if int(k) >= len(out) {
+				return nil, false
+			}
+			out[k] = v
+		}
+		return out, true
+	}
+	// appends, in instruction order
+	var out []string
+	instrs(sf, func(_ *ssa.BasicBlock, _ int, in ssa.Instruction) {
+		call, ok := in.(*ssa.Call)
+		if !ok || calleeNameAny(call) != "append" || !strings.HasSuffix(call.Type().String(), "[]time.Time") {
+			return
+		}
+		// the single appended element: store into the variadic backing array
+		for _, l := range Leaves(call.Common().Args[1], nil) {
+			if al, ok := l.(*ssa.Alloc); ok {
+				for _, r := range *al.Referrers() {
+					if ia, ok := r.(*ssa.IndexAddr); ok {
+						for _, u := range *ia.Referrers() {
+							if st, ok := u.(*ssa.Store); ok {
+								out = append(out, offsetOf(st.Val))
+							}
+						}
+					}
+				}
+			}
+		}
+	})
+	return out, len(out) > 0
 }
